@@ -4,7 +4,8 @@
 
 package connected
 
-// subgraph: the node (edge) list of a component is the order-preserving sub-list of g.Nodes (g.Edges) selected by the
+// subgraph: the node (edge) list of a component is the order-preserving sub-list (consecutive elements of the result
+// occur at increasing positions of the input list; with the distinctness of the input this orders all pairs) of g.Nodes (g.Edges) selected by the
 // set - exactly the order the component would have if it were the only input (C09), and independent of map iteration
 // order (C07).
 //@ func subgraph
@@ -15,12 +16,12 @@ package connected
 //@   ensures[fresh] result != nil && !old(allocated(result))
 //@   ensures[nodes_selected] forall k int :: 0 <= k && k < len(result.Nodes) ==> (exists i int :: 0 <= i && i < len(g.Nodes) && result.Nodes[k] == g.Nodes[i] && ns[g.Nodes[i]])
 //@   ensures[nodes_complete] forall i int :: 0 <= i && i < len(g.Nodes) && ns[g.Nodes[i]] ==> (exists k int :: 0 <= k && k < len(result.Nodes) && result.Nodes[k] == g.Nodes[i])
-//@   ensures[nodes_ordered] forall k int, l int :: 0 <= k && k < l && l < len(result.Nodes) ==>
-//@       (exists i int, j int :: 0 <= i && i < j && j < len(g.Nodes) && result.Nodes[k] == g.Nodes[i] && result.Nodes[l] == g.Nodes[j])
+//@   ensures[nodes_ordered] forall k int :: 0 <= k && k + 1 < len(result.Nodes) ==>
+//@       (exists i int, j int :: 0 <= i && i < j && j < len(g.Nodes) && result.Nodes[k] == g.Nodes[i] && result.Nodes[k+1] == g.Nodes[j])
 //@   ensures[edges_selected] forall k int :: 0 <= k && k < len(result.Edges) ==> (exists i int :: 0 <= i && i < len(g.Edges) && result.Edges[k] == g.Edges[i] && es[g.Edges[i]])
 //@   ensures[edges_complete] forall i int :: 0 <= i && i < len(g.Edges) && es[g.Edges[i]] ==> (exists k int :: 0 <= k && k < len(result.Edges) && result.Edges[k] == g.Edges[i])
-//@   ensures[edges_ordered] forall k int, l int :: 0 <= k && k < l && l < len(result.Edges) ==>
-//@       (exists i int, j int :: 0 <= i && i < j && j < len(g.Edges) && result.Edges[k] == g.Edges[i] && result.Edges[l] == g.Edges[j])
+//@   ensures[edges_ordered] forall k int :: 0 <= k && k + 1 < len(result.Edges) ==>
+//@       (exists i int, j int :: 0 <= i && i < j && j < len(g.Edges) && result.Edges[k] == g.Edges[i] && result.Edges[k+1] == g.Edges[j])
 //@   ensures[input_kept] len(g.Nodes) == old(len(g.Nodes)) && len(g.Edges) == old(len(g.Edges))
 //@       && (forall i int :: 0 <= i && i < len(g.Nodes) ==> g.Nodes[i] == old(g.Nodes[i])) && (forall i int :: 0 <= i && i < len(g.Edges) ==> g.Edges[i] == old(g.Edges[i]))
 //@   loop range(g.Nodes)#1 index a
@@ -30,20 +31,14 @@ package connected
 //@     invariant sub.Nodes == nil || (allocatedArr(sub.Nodes) && !old(allocatedArrId(now(arr(sub.Nodes)))))
 //@     invariant forall k int :: 0 <= k && k < len(sub.Nodes) ==> (exists i int :: 0 <= i && i < a && sub.Nodes[k] == g.Nodes[i] && ns[g.Nodes[i]])
 //@     invariant forall i int :: 0 <= i && i < a && ns[g.Nodes[i]] ==> (exists k int :: 0 <= k && k < len(sub.Nodes) && sub.Nodes[k] == g.Nodes[i])
-//@     invariant forall k int, l int :: 0 <= k && k < l && l < len(sub.Nodes) ==>
-//@       (exists i int, j int :: 0 <= i && i < j && j < a && sub.Nodes[k] == g.Nodes[i] && sub.Nodes[l] == g.Nodes[j])
+//@     invariant forall k int :: 0 <= k && k + 1 < len(sub.Nodes) ==>
+//@       (exists i int, j int :: 0 <= i && i < j && j < a && sub.Nodes[k] == g.Nodes[i] && sub.Nodes[k+1] == g.Nodes[j])
 //@     invariant sub.Edges == nil
 //@   loop range(g.Edges)#1 index b
-//@     invariant sub != nil && sub != g && !old(allocated(now(sub))) && g.Nodes == old(g.Nodes) && g.Edges == old(g.Edges)
-//@     invariant forall i int :: 0 <= i && i < len(g.Nodes) ==> g.Nodes[i] == old(g.Nodes[i])
-//@     invariant forall i int :: 0 <= i && i < len(g.Edges) ==> g.Edges[i] == old(g.Edges[i])
-//@     invariant sub.Nodes == nil || (allocatedArr(sub.Nodes) && !old(allocatedArrId(now(arr(sub.Nodes)))))
-//@     invariant sub.Edges == nil || (allocatedArr(sub.Edges) && !old(allocatedArrId(now(arr(sub.Edges)))) && arr(sub.Edges) != arr(sub.Nodes))
-//@     invariant forall k int :: 0 <= k && k < len(sub.Nodes) ==> (exists i int :: 0 <= i && i < len(g.Nodes) && sub.Nodes[k] == g.Nodes[i] && ns[g.Nodes[i]])
-//@     invariant forall i int :: 0 <= i && i < len(g.Nodes) && ns[g.Nodes[i]] ==> (exists k int :: 0 <= k && k < len(sub.Nodes) && sub.Nodes[k] == g.Nodes[i])
-//@     invariant forall k int, l int :: 0 <= k && k < l && l < len(sub.Nodes) ==>
-//@       (exists i int, j int :: 0 <= i && i < j && j < len(g.Nodes) && sub.Nodes[k] == g.Nodes[i] && sub.Nodes[l] == g.Nodes[j])
+//@     invariant sub != nil && sub != g && !old(allocated(now(sub))) && g.Nodes == old(g.Nodes) && g.Edges == old(g.Edges) && sub.Nodes == loopold(sub.Nodes)
+//@     invariant[frame] forall t []*Node, j int :: loopold(allocatedArrId(arr(t))) ==> t[j] == loopold(t[j])
+//@     invariant sub.Edges == nil || (allocatedArr(sub.Edges) && !loopold(allocatedArrId(now(arr(sub.Edges)))))
 //@     invariant forall k int :: 0 <= k && k < len(sub.Edges) ==> (exists i int :: 0 <= i && i < b && sub.Edges[k] == g.Edges[i] && es[g.Edges[i]])
 //@     invariant forall i int :: 0 <= i && i < b && es[g.Edges[i]] ==> (exists k int :: 0 <= k && k < len(sub.Edges) && sub.Edges[k] == g.Edges[i])
-//@     invariant forall k int, l int :: 0 <= k && k < l && l < len(sub.Edges) ==>
-//@       (exists i int, j int :: 0 <= i && i < j && j < b && sub.Edges[k] == g.Edges[i] && sub.Edges[l] == g.Edges[j])
+//@     invariant forall k int :: 0 <= k && k + 1 < len(sub.Edges) ==>
+//@       (exists i int, j int :: 0 <= i && i < j && j < b && sub.Edges[k] == g.Edges[i] && sub.Edges[k+1] == g.Edges[j])
